@@ -507,7 +507,9 @@ impl C18 {
     /// first-toucher orders of the lazily initialised globals, each in a fresh process
     fn first_touch(&self, findings: &Findings) -> Result<u64, String> {
         let exe = crate::explore::self_exe()?;
-        let kinds = ["hash", "verify", "seeded_key_gen"];
+        // first calls: hash-to-field, verification on a fresh instance, seeded key generation, and Poseidon with each
+        // number of inputs 1..8 (each arity has its own parameter set)
+        let kinds = ["hash", "verify", "seeded_key_gen", "poseidon1", "poseidon2", "poseidon3", "poseidon4", "poseidon5", "poseidon6", "poseidon7", "poseidon8"];
         let mut items = vec![];
         for a in kinds {
             for b in kinds {
@@ -517,6 +519,10 @@ impl C18 {
         }
         items.sort();
         items.dedup();
+        // all eight arities at once, and the three others at once
+        items.push(("all-poseidon", ""));
+        items.push(("all-poseidon", ""));
+        items.push(("all-kinds", ""));
         let want_hash = hex(&codec::fr(&keccak::hash_to_field(b"abc")));
         let res = par_map(&items, ncpu(), |_, (a, b)| -> Result<Value, String> {
             let o = Command::new(&exe).args(["--worker", "firsttouch", a, b]).stderr(std::process::Stdio::null()).output().map_err(|e| e.to_string())?;
@@ -527,15 +533,26 @@ impl C18 {
         for ((a, b), r) in items.iter().zip(res.into_iter()) {
             let v = r?;
             n += 1;
-            for (k, kind) in [(0usize, a), (1, b)] {
+            let kinds_run: Vec<String> = match *a {
+                "all-poseidon" => (1..=8).map(|n| format!("poseidon{n}")).collect(),
+                "all-kinds" => kinds.iter().map(|s| s.to_string()).collect(),
+                _ => vec![a.to_string(), b.to_string()],
+            };
+            for (k, kind) in kinds_run.iter().enumerate() {
+                let kind: &&str = &kind.as_str();
                 let got = v["results"][k].as_str().unwrap_or("").to_string();
                 let ok = match *kind {
                     "hash" => got == want_hash,
                     "verify" => got == "true",
+                    pk if pk.starts_with("poseidon") => {
+                        let n: u64 = pk[8..].parse().unwrap_or(1);
+                        got == hex(&codec::fr(&crate::refmodel::poseidon::hash(&(1..=n).map(big).collect::<Vec<_>>())))
+                    }
                     _ => { if keyref.is_none() { keyref = Some(got.clone()); } Some(&got) == keyref.as_ref() && got.len() == 128 }
                 };
                 if !ok {
-                    findings.report(Discrepancy { key: format!("C18/first-toucher/{kind}/wrong-result"), case: json!({"kind":"firsttouch","order":[a, b]}), detail: format!("two threads whose first calls are {a} and {b} in a fresh process: {kind} returned {got}") });
+                    let kclass = if kind.starts_with("poseidon") { "poseidon" } else { kind };
+                    findings.report(Discrepancy { key: format!("C18/first-toucher/{kclass}/wrong-result"), case: json!({"kind":"firsttouch","order":[a, b]}), detail: format!("threads whose first calls are {a} {b} in a fresh process: {kind} returned {got}") });
                 }
             }
         }
@@ -732,7 +749,12 @@ pub fn worker_poolverify(files: &[String]) -> i32 {
 pub fn worker_firsttouch(a: &str, b: &str) -> i32 {
     // a message to verify, produced by a helper process beforehand, would touch the globals; instead the
     // verify thread builds its instance and proves inside the thread (its first touch is RLN::new)
-    let barrier = Arc::new(Barrier::new(2));
+    let kinds: Vec<String> = match a {
+        "all-poseidon" => (1..=8).map(|n| format!("poseidon{n}")).collect(),
+        "all-kinds" => ["hash", "verify", "seeded_key_gen", "poseidon1", "poseidon2", "poseidon3", "poseidon4", "poseidon5", "poseidon6", "poseidon7", "poseidon8"].iter().map(|s| s.to_string()).collect(),
+        _ => vec![a.to_string(), b.to_string()],
+    };
+    let barrier = Arc::new(Barrier::new(kinds.len()));
     let run = |kind: String, bar: Arc<Barrier>| {
         std::thread::spawn(move || -> String {
             bar.wait();
@@ -746,6 +768,14 @@ pub fn worker_firsttouch(a: &str, b: &str) -> i32 {
                     let (s, c) = rln::protocol::seeded_keygen(b"seed");
                     hex(&[codec::fr(&from_fr(&s)), codec::fr(&from_fr(&c))].concat())
                 }
+                pk if pk.starts_with("poseidon") => {
+                    let n: u64 = pk[8..].parse().unwrap_or(1);
+                    let inp: Vec<Fr> = (1..=n).map(|k| to_fr(&big(k))).collect();
+                    // twice: the second call on this thread must agree with the first
+                    let h1 = rln::hashers::poseidon_hash(&inp);
+                    let h2 = rln::hashers::poseidon_hash(&inp);
+                    if h1 != h2 { "differs-between-calls".to_string() } else { hex(&codec::fr(&from_fr(&h1))) }
+                }
                 _ => {
                     let r = Req::default_req();
                     match make_shared(&r) {
@@ -756,10 +786,8 @@ pub fn worker_firsttouch(a: &str, b: &str) -> i32 {
             }
         })
     };
-    let h1 = run(a.to_string(), barrier.clone());
-    let h2 = run(b.to_string(), barrier);
-    let r1 = h1.join().unwrap_or_else(|_| "panic".into());
-    let r2 = h2.join().unwrap_or_else(|_| "panic".into());
-    println!("{}", json!({"results": [r1, r2]}));
+    let hs: Vec<_> = kinds.iter().map(|k| run(k.clone(), barrier.clone())).collect();
+    let rs: Vec<String> = hs.into_iter().map(|h| h.join().unwrap_or_else(|_| "panic".into())).collect();
+    println!("{}", json!({"results": rs}));
     0
 }
